@@ -184,6 +184,121 @@ pub fn check_aidx(c: &AidxCase) -> Verdict {
     edit_class(v, &c.edit)
 }
 
+// ------------------------------------------------- archive index: file length
+
+/// A span removed from / inserted into the part of an archive index *in front of* the footer
+/// (data pages and table of contents). The footer itself stays byte-identical and so keeps a
+/// valid hash; its checksummed fields (page size, key/size/offset widths, hash width, element
+/// count) fix the exact length of the file, which `validate_file_size` compares.
+#[derive(Debug, Clone, Serialize, Deserialize)]
+pub struct AidxLenCase {
+    pub art: String,
+    /// byte offset from the start of the file (clamped to the body)
+    pub pos: u32,
+    /// length of the span
+    pub n: u32,
+    pub insert: bool,
+    /// inserted bytes: a copy of the n bytes that precede `pos` (a forged record that keeps
+    /// neighbours plausible) when true, zeros otherwise
+    pub copy_neighbour: bool,
+}
+
+/// Length of an archive index as determined by its footer (documented layout: full pages of
+/// `page_size_kb` KiB, one TOC entry of key + hash per page, 20 + hash bytes of footer).
+pub fn aidx_len_by_footer(f: &[u8]) -> Option<u64> {
+    let f = &f[f.len().checked_sub(28)?..];
+    let (page_kb, off_b, size_b, key_b, hash_b) = (u64::from(f[11]), u64::from(f[12]), u64::from(f[13]), u64::from(f[14]), u64::from(f[15]));
+    let count = u64::from(u32::from_le_bytes([f[16], f[17], f[18], f[19]]));
+    let rec = key_b + size_b + off_b;
+    if rec == 0 || page_kb == 0 {
+        return None;
+    }
+    let per_page = page_kb * 1024 / rec;
+    if per_page == 0 {
+        return None;
+    }
+    let pages = count.div_ceil(per_page);
+    Some(pages * page_kb * 1024 + pages * (key_b + hash_b) + 20 + hash_b)
+}
+
+pub fn check_aidx_len(c: &AidxLenCase) -> Verdict {
+    use cascette_formats::archive::{ArchiveIndex, ChunkedArchiveIndex};
+    let a = match art::get(&c.art) {
+        Ok(a) => a,
+        Err(e) => return vacuous(&format!("{}: {e}", c.art)),
+    };
+    let Art::Aidx(a) = &*a else { return vacuous("not an archive index") };
+    let body = a.bytes.len() - 28;
+    let Some(expect) = aidx_len_by_footer(&a.bytes) else { return vacuous("footer fields give no length") };
+    if expect != a.bytes.len() as u64 {
+        return vacuous("the intact artifact's length is not the one its footer determines");
+    }
+    let n = c.n as usize;
+    if n == 0 {
+        return void();
+    }
+    let mut m = a.bytes.clone();
+    let kind;
+    if c.insert {
+        let pos = (c.pos as usize).min(body);
+        let ins: Vec<u8> = if c.copy_neighbour && pos >= n { a.bytes[pos - n..pos].to_vec() } else { vec![0u8; n] };
+        m.splice(pos..pos, ins);
+        kind = "insert";
+    } else {
+        let pos = (c.pos as usize).min(body.saturating_sub(1));
+        let n = n.min(body - pos);
+        if n == 0 {
+            return void();
+        }
+        m.drain(pos..pos + n);
+        kind = "delete";
+    }
+    debug_assert_eq!(&m[m.len() - 28..], &a.bytes[a.bytes.len() - 28..]);
+    let f = &a.bytes[a.bytes.len() - 28..];
+    let rec = usize::from(f[12]) + usize::from(f[13]) + usize::from(f[14]);
+    let page = usize::from(f[11]) * 1024;
+    let pages = (a.bytes.len() - 28) / (page + usize::from(f[14]) + 8);
+    let where_ = if (c.pos as usize) < pages * page {
+        if (c.pos as usize) % page % rec == 0 { "data:record-boundary" } else { "data:inside-record" }
+    } else {
+        "toc"
+    };
+    let mut v = Verdict::pass().nontrivial(true).class(kind).class(where_).class(if c.n as usize % rec == 0 { "span=whole-records" } else { "span=other" });
+    match ArchiveIndex::parse(std::io::Cursor::new(&m)) {
+        Err(e) => {
+            v = v.class(match e {
+                cascette_formats::archive::ArchiveError::FileSizeMismatch { .. } => "rejected:file-size-mismatch",
+                _ => "rejected:other-error",
+            })
+        }
+        Ok(ix) => {
+            return Verdict::fail(
+                "C07:archive-index:parse-accepts-length-that-contradicts-checksummed-footer",
+                format!(
+                    "{}: {kind} of {} bytes at offset {} (footer untouched, hash valid): the footer's checksummed fields fix the file at {expect} bytes, the file has {}; ArchiveIndex::parse returned Ok with {} entries (element_count {})",
+                    c.art,
+                    c.n,
+                    c.pos,
+                    m.len(),
+                    ix.entries.len(),
+                    ix.footer.element_count
+                ),
+            );
+        }
+    }
+    // ChunkedArchiveIndex::open reads only footer and TOC and documents no length check; what it
+    // does is recorded, not judged
+    if c.n % 7 == 0 {
+        if let Ok(dir) = crate::scratch_dir() {
+            let p = dir.path().join("x.index");
+            if std::fs::write(&p, &m).is_ok() {
+                v = v.class(if ChunkedArchiveIndex::open(&p).is_ok() { "observed:chunked-open-accepts" } else { "observed:chunked-open-rejects" });
+            }
+        }
+    }
+    v
+}
+
 // --------------------------------------------------------------------- lru
 
 #[derive(Debug, Clone, Serialize, Deserialize)]
